@@ -19,7 +19,7 @@ func init() {
 	Register(&Rule{
 		ID:    "R-SMALL",
 		Doc:   "single-site obligations: thrift Reset recomputes protocol flags like the constructor; the seen-bit of a decoded field is set on every path that consumes it; keyset lookups are confirmed by a length comparison; HTML key fragments are always computed; slice growth is geometric; every callback parameter of the skippers is used; trailing-data tests dominate success returns; varint overflow constants; sort-before-delta; number-kind precedence; identities of base64/time/endianness callees",
-		Props: []string{"C01", "C02", "C03", "C04", "C07", "C08", "C12", "C13", "C14", "C16", "C17", "C19"},
+		Props: []string{"C01", "C02", "C03", "C04", "C07", "C08", "C10", "C12", "C13", "C14", "C16", "C17", "C19"},
 		Min:   map[string]int{"C01": 5, "C02": 3, "C03": 1, "C04": 4, "C07": 3, "C08": 4, "C12": 2, "C13": 3, "C14": 3, "C16": 1, "C17": 1, "C19": 2},
 		Run:   runSmall,
 	})
@@ -57,6 +57,9 @@ func runSmall(c *core.Ctx) []core.Obligation {
 	smallTokenizerStringFastPath(c, b)
 	smallClaimedBytesWritten(c, b)
 	smallLineSeparatorsAlwaysEscaped(c, b)
+	smallBitsetModulus(c, b)
+	smallRewriteOwnsOutput(c, b)
+	smallMapKeySortFollowsEncoder(c, b)
 	smallStringOptionNull(c, b)
 	smallStringOptionMarshaler(c, b)
 	return b.out
@@ -975,6 +978,203 @@ func smallRawVarintByte(c *core.Ctx, b *ob) {
 	}
 	if n == 0 {
 		b.addP(props, core.Discharged, "raw-varint-byte:none", "proto", "no integer is written as a raw byte outside encodeVarint: every length and tag goes through the varint encoder")
+	}
+}
+
+// S34 — encoding/json sorts the keys of a map by the text it writes for them. constructMapCodec
+// chooses, per key kind, how a key is written (kc.encode) and how keys are ordered (sortKeys); the
+// two are chosen together: every place that installs a key encoder installs the matching order
+// in the same breath. An order installed only "if none was set yet" leaves integer-kind keys with
+// a MarshalText method written by name and sorted by number.
+func smallMapKeySortFollowsEncoder(c *core.Ctx, b *ob) {
+	props := []string{"C01"}
+	key := "mapkeys:order-installed-with-encoder"
+	fn := c.Lookup("json.constructMapCodec")
+	if fn == nil {
+		b.addP(props, core.Undecided, key, "-", "json.constructMapCodec not found")
+		return
+	}
+	// sortKeys is a local merged by φs: on every edge that leaves the region of a block which
+	// installs a key encoder, the φ must receive a freshly chosen order (a function value), not
+	// whatever was there before
+	var sortPhis []*ssa.Phi
+	for _, blk := range fn.Blocks {
+		for _, in := range blk.Instrs {
+			if phi, ok := in.(*ssa.Phi); ok && strings.Contains(phi.Type().String(), "sortFunc") {
+				sortPhis = append(sortPhis, phi)
+			}
+		}
+	}
+	n, bad := 0, ""
+	for _, blk := range fn.Blocks {
+		var encStore *ssa.Store
+		for _, in := range blk.Instrs {
+			st, ok := in.(*ssa.Store)
+			if !ok {
+				continue
+			}
+			fa, isFA := st.Addr.(*ssa.FieldAddr)
+			if !isFA || fieldAddrID(fa) != "json.codec.encode" {
+				continue
+			}
+			// only the key codec, and not the adapter that wraps the encoder already chosen
+			if call, isCall := st.Val.(*ssa.Call); isCall {
+				if f := staticCallee(call.Common()); f != nil && f.Name() == "constructInlineValueEncodeFunc" {
+					continue
+				}
+			}
+			if al, isAl := fa.X.(*ssa.Alloc); !isAl || !strings.Contains(al.Comment, "kc") {
+				continue
+			}
+			encStore = st
+		}
+		if encStore == nil {
+			continue
+		}
+		n++
+		for _, phi := range sortPhis {
+			for i, e := range phi.Edges {
+				pred := phi.Block().Preds[i]
+				if pred != blk && !blk.Dominates(pred) {
+					continue
+				}
+				for k := 0; k < 3; k++ {
+					if ct, isCT := e.(*ssa.ChangeType); isCT {
+						e = ct.X
+					}
+				}
+				switch e.(type) {
+				case *ssa.Function, *ssa.MakeClosure:
+				default:
+					bad = c.InstrPos(encStore)
+				}
+			}
+		}
+	}
+	switch {
+	case n == 0:
+		b.addP(props, core.Undecided, key, c.FuncPos(fn), "no assignment of the key encoder found in constructMapCodec")
+	case bad != "":
+		b.addP(props, core.Violation, key, bad, "constructMapCodec installs a key encoder without installing the matching key order in the same place: keys are then sorted by a different text than the one written (an integer-kind key type with a MarshalText method is written by name and sorted by number), so members come out in another order than encoding/json's")
+	default:
+		b.addP(props, core.Discharged, key, c.FuncPos(fn), fmt.Sprintf("%d key encoders, each installed together with its order", n))
+	}
+}
+
+// S32 — bit sets: an index i is split into a word (i / W, or i >> log2 W) and a bit (i % W, or
+// i & (W-1)). Both halves must use the same W; with i>>6 and i&0x1f two indexes 32 apart share a
+// bit, and the rewriter (or the required-field check) takes one field for the other.
+func smallBitsetModulus(c *core.Ctx, b *ob) {
+	n := 0
+	fns := c.RepoFunctions()
+	sort.Slice(fns, func(i, j int) bool { return shortName(fns[i]) < shortName(fns[j]) })
+	for _, fn := range fns {
+		name := shortName(fn)
+		if fn.Blocks == nil || fn.Pkg == nil {
+			continue
+		}
+		var props []string
+		switch fn.Pkg.Pkg.Name() {
+		case "proto":
+			props = []string{"C19"}
+		case "thrift":
+			props = []string{"C04", "C08"}
+		default:
+			continue
+		}
+		word := map[ssa.Value]int64{}
+		bit := map[ssa.Value]int64{}
+		var at ssa.Instruction
+		for _, blk := range fn.Blocks {
+			for _, in := range blk.Instrs {
+				bo, ok := in.(*ssa.BinOp)
+				if !ok {
+					continue
+				}
+				k, isK := constInt(bo.Y)
+				if !isK || k <= 0 {
+					continue
+				}
+				x := bo.X
+				if cv, isCv := x.(*ssa.Convert); isCv {
+					x = cv.X
+				}
+				switch bo.Op {
+				case token.QUO:
+					word[x] = k
+				case token.SHR:
+					if k < 16 {
+						word[x] = 1 << uint(k)
+					}
+				case token.REM:
+					bit[x] = k
+					at = bo
+				case token.AND:
+					if k&(k+1) == 0 && k >= 7 { // a low-bits mask
+						bit[x] = k + 1
+						at = bo
+					}
+				}
+			}
+		}
+		for x, w := range word {
+			bw, ok := bit[x]
+			if !ok {
+				continue
+			}
+			n++
+			key := "bitset:word-and-bit-same-modulus:" + closureIndex.ReplaceAllString(name, "")
+			if w != bw {
+				b.addP(props, core.Violation, key, c.InstrPos(at), fmt.Sprintf("%s splits an index into word i/%d and bit i%%%d: indexes %d apart share a bit, so one field is taken for another (the second of two templated fields is dropped; a required field counts as seen)", name, w, bw, bw))
+			} else {
+				b.addP(props, core.Discharged, key, c.InstrPos(at), fmt.Sprintf("word and bit both modulo %d", w))
+			}
+		}
+	}
+	if n == 0 {
+		b.addP([]string{"C19", "C04"}, core.Undecided, "bitset:word-and-bit-same-modulus", "-", "no index split into word and bit found")
+	}
+}
+
+// S33 — a Rewriter appends to the buffer it is given and returns it. What it returns on success is
+// derived from out (appended to, or resliced); a template's own storage handed back as the result
+// is then shifted in place by the enclosing message rewriter and overwritten by the caller's next
+// call — "neither the input message nor the template is modified" fails on the second use.
+func smallRewriteOwnsOutput(c *core.Ctx, b *ob) {
+	props := []string{"C19", "C10"}
+	n := 0
+	fns := c.RepoFunctions()
+	sort.Slice(fns, func(i, j int) bool { return shortName(fns[i]) < shortName(fns[j]) })
+	for _, fn := range fns {
+		name := shortName(fn)
+		if fn.Blocks == nil || fn.Name() != "Rewrite" || fn.Synthetic != "" || !strings.HasPrefix(name, "proto.") || fn.Signature.Recv() == nil {
+			continue
+		}
+		if len(fn.Params) != 3 || fn.Signature.Results().Len() != 2 {
+			continue
+		}
+		recv, out := fn.Params[0], fn.Params[1]
+		n++
+		key := "rewrite:returns-own-buffer:" + name
+		bad := ""
+		for _, r := range returnsOf(fn) {
+			if len(r.Results) != 2 || !isNilConst(r.Results[1]) {
+				continue
+			}
+			fromRecv := dependsOn(r.Results[0], func(x ssa.Value) bool { return x == ssa.Value(recv) })
+			fromOut := dependsOn(r.Results[0], func(x ssa.Value) bool { return x == ssa.Value(out) })
+			if fromRecv && !fromOut {
+				bad = c.InstrPos(r)
+			}
+		}
+		if bad != "" {
+			b.addP(props, core.Violation, key, bad, name+" returns, on success, memory that comes from the rewriter itself and not from the out buffer: the caller (and the enclosing message rewriter, which moves bytes inside what it gets back) then writes into the template, and later uses of the rewriter emit garbage")
+		} else {
+			b.addP(props, core.Discharged, key, c.FuncPos(fn), "successful results are built on the out buffer")
+		}
+	}
+	if n == 0 {
+		b.addP(props, core.Undecided, "rewrite:returns-own-buffer", "-", "no Rewrite method found in proto")
 	}
 }
 
